@@ -131,8 +131,9 @@ impl Scenario for C08 {
         }
         if m.advances < self.max_adv {
             v.push(Act::Advance(20));
-            // ~64 days: longer than any TTL a contract extends to, shorter than the minimum persistent TTL
-            v.push(Act::Advance(1_100_000));
+            // ~405 days: longer than the maximum entry TTL, so every temporary entry is gone by then, while
+            // the world's keeper (World::set_seq) keeps instance / persistent entries alive
+            v.push(Act::Advance(7_000_000));
         }
         v
     }
